@@ -276,7 +276,7 @@ struct Step {
     behaviour: Behaviour,
 }
 
-fn history_alphabet() -> Vec<Step> {
+fn history_alphabet(thorough: bool) -> Vec<Step> {
     let z = Dims { query_carrier: false, path: 0, query: 0, carrier: 0, alg: 0, syntax: 0, missing: 0, reqs: 0, date: 0, cred: 0, provider: 0, sig: 0 };
     let reqs: Vec<(&'static str, Dims, bool)> = vec![
         ("valid", z, false),
@@ -291,6 +291,15 @@ fn history_alphabet() -> Vec<Step> {
         Behaviour { ready_pending: 1, ready_err: None, call_pending: 1, answer: Answer::Correct },
         Behaviour { ready_pending: 0, ready_err: Some(ErrSpec::Io), call_pending: 0, answer: Answer::Correct },
     ];
+    let mut behs = behs;
+    let mut reqs = reqs;
+    // the foreign-error answer after a success is the "ride out an outage with a remembered key" scenario
+    behs.push(Behaviour { ready_pending: 0, ready_err: None, call_pending: 0, answer: Answer::Err(ErrSpec::Str) });
+    if thorough {
+        behs.push(Behaviour { ready_pending: 0, ready_err: None, call_pending: 2, answer: Answer::WrongKey });
+        reqs.push(("scope", Dims { cred: 3, ..z }, false));
+        reqs.push(("bad-query", Dims { query: 1, ..z }, false));
+    }
     let mut out = Vec::new();
     for (n, d, o) in &reqs {
         for b in &behs {
@@ -334,7 +343,7 @@ pub fn run(ctx: &Ctx) -> Report {
     });
 
     // histories: every sequence of up to `depth` validations on ONE provider instance
-    let alphabet = history_alphabet();
+    let alphabet = history_alphabet(thorough);
     let k = alphabet.len() as u64;
     let depth: u32 = if thorough { 4 } else { 3 };
     // fresh-state outcome of every symbol (own provider instance)
